@@ -65,6 +65,26 @@ def gen(rng, index, tier):
     return {"kind": "uniform", "n": n, "m": rng.randint(1, 4)}
 
 
+def fixed_cases(tier):
+    """thorough: EXHAUSTIVE — each of the six moves on every dense vector (with absent elements) of length <= 4 and
+    every admissible element"""
+    if tier != "thorough":
+        return []
+    from itertools import product
+    cases = []
+    for n in range(1, 5):
+        for v in product(range(-1, n), repeat=n):
+            ranked = sorted(set(x for x in v if x >= 0))
+            if ranked != list(range(len(ranked))):
+                continue
+            for e in range(n):
+                for mv in range(1, 7):
+                    if (mv == 6) != (v[e] == -1):
+                        continue
+                    cases.append({"kind": "move", "move": mv, "v": list(v), "e": e})
+    return cases
+
+
 class Script:
     def __init__(self, values):
         self.values = list(values)
